@@ -17,12 +17,14 @@ type c12 struct{}
 func init() { register(c12{}) }
 
 func (c12) ID() string { return "C12" }
-func (c12) NumCases(tier string) int {
+func (c12) regularCases(tier string) int {
 	if tier == "thorough" {
-		return len(families) + 60000
+		return len(families) + 200000
 	}
 	return len(families) + 5000
 }
+func (p c12) NumCases(tier string) int { return p.regularCases(tier) + tinyCases(tier) }
+func (c12) Extra(tier string) map[string]interface{} { return tinyExtra(tier) }
 func (c12) Rule() string {
 	return "case = one grammar: curated families, random grammars (not filtered), and injections (undefined identifier in a rhs; nonterminal without rules used in a rhs or as start symbol; unproductive nonterminal as start / deep in a chain / in a mutually recursive pair / unreachable; the same shapes repaired by one epsilon or terminal rule); reference = productive/defined fixpoints over the specification; yaccgo must build tables iff the reference says usable, and a refusal must be an error value or message panic, never a runtime error; non-trivial = injected case or random grammar that is unusable; distinct by grammar text"
 }
@@ -147,7 +149,10 @@ func usableRef(g *spec.Grammar) (bool, string) {
 	return true, ""
 }
 
-func (c12) Run(seed int64, tier string, idx int) Outcome {
+func (p c12) Run(seed int64, tier string, idx int) Outcome {
+	if reg := p.regularCases(tier); idx >= reg {
+		return tinyBatch("C12", idx-reg, false, func(g *spec.Grammar, i int) Outcome { return p.runOn(g, "tiny", false, i) })
+	}
 	r := caseRng(seed, "C12", idx)
 	var g *spec.Grammar
 	what := "random"
@@ -163,6 +168,10 @@ func (c12) Run(seed int64, tier string, idx int) Outcome {
 	default:
 		g = gen.Rand(r, stdCfg)
 	}
+	return p.runOn(g, what, injected, idx)
+}
+
+func (c12) runOn(g *spec.Grammar, what string, injected bool, idx int) Outcome {
 	g.NoAction = true
 	// nonterminals that never appear on a lhs must not get a %type line (that is a different construct)
 	has := make([]bool, len(g.NTs))
